@@ -77,9 +77,51 @@ func tightCap(rng *rand.Rand, out *Out) func() {
 	}
 }
 
+// qsrNotBurnable: some histories run on a genesis whose QSR is not burnable (a configuration CheckGenesis accepts). A
+// pillar registration then makes the pillar contract send a fund-carrying Burn call to the token contract that FAILS
+// there: a contract-to-contract call with value that is rolled back (the refund path with an embedded sender).
+func qsrNotBurnable(out *Out) func() {
+	var tok *definition.TokenInfo
+	for _, t := range g.EmbeddedGenesis.TokenConfig.Tokens {
+		if t.TokenStandard == types.QsrTokenStandard {
+			tok = t
+		}
+	}
+	if tok == nil {
+		return func() {}
+	}
+	was := tok.IsBurnable
+	tok.IsBurnable = false
+	out.Count("c01:history-with-qsr-not-burnable")
+	return func() { tok.IsBurnable = was }
+}
+
+// failingContractToContractCall: DepositQsr + Register of a new pillar by an actor that can afford it; with QSR not
+// burnable the pillar contract's Burn call (150000 QSR) fails in the token contract
+func (h *hist) failingContractToContractCall() {
+	kp := g.Pillar4
+	if h.rng.Intn(2) == 0 {
+		kp = g.Pillar5
+	}
+	h.sendCall(kp, Call{"pillar.DepositQsr", types.PillarContract, types.QsrTokenStandard, zx(150000),
+		definition.ABIPillars.PackMethodPanic(definition.DepositQsrMethodName)})
+	h.momentum()
+	h.momentum()
+	h.sendCall(kp, Call{"pillar.Register", types.PillarContract, types.ZnnTokenStandard, new(big.Int).Set(constants.PillarStakeAmount),
+		definition.ABIPillars.PackMethodPanic(definition.RegisterMethodName, fmt.Sprintf("c01-pillar-%d", h.rng.Intn(1000)), kp.Address, kp.Address, uint8(0), uint8(100))})
+	for i := 0; i < 4; i++ {
+		h.momentum()
+	}
+	h.out.Count("c01:act:pillar-registration-with-failing-burn")
+}
+
 func history(rng *rand.Rand, out *Out, steps int) {
+	c2c := false
 	if rng.Intn(5) == 0 {
 		defer tightCap(rng, out)()
+	} else if rng.Intn(4) == 0 {
+		defer qsrNotBurnable(out)()
+		c2c = true
 	}
 	nd := NewNode()
 	defer nd.Stop()
@@ -91,7 +133,14 @@ func history(rng *rand.Rand, out *Out, steps int) {
 	ok, d := h.prev.SupplyOracle()
 	out.Oracle(ok, "c01-genesis-supply", d)
 	probed := false
+	c2cAt := -1
+	if c2c {
+		c2cAt = rng.Intn(steps/2 + 1)
+	}
 	for s := 0; s < steps; s++ {
+		if s == c2cAt {
+			h.failingContractToContractCall()
+		}
 		switch k := rng.Intn(100); {
 		case k < 30:
 			h.attemptSend(false)
